@@ -101,6 +101,7 @@ class Producer(object):
 
     _sendLooper = None
     _sendLooperD = None
+    stopping = False
 
     def __init__(
         self,
@@ -343,6 +344,11 @@ class Producer(object):
         # We use these dictionaries to be able to combine all the messages
         # destined to the same topic/partition into one request
         # the messages & deferreds, both by topic+partition
+        if self.stopping:
+            # stop() cancelled the partition lookups; it fails the requests itself and
+            # nothing further may be transmitted.
+            return
+
         reqsByTopicPart = defaultdict(list)
         payloadsByTopicPart = defaultdict(list)
         deferredsByTopicPart = defaultdict(list)
@@ -527,6 +533,12 @@ class Producer(object):
              the Kafka broker indicated an error with servicing the request on
              some of the responses.
         """
+
+        if self.stopping and not (isinstance(result, Failure) and result.check(tid_CancelledError)):
+            # With the real client the request cancelled by stop() surfaces here as
+            # failed payloads (plus any responses already in), not as a cancellation.
+            # Nothing may be retried, and stop() fails every outstanding request itself.
+            return
 
         def _deliver_result(d_list, result=None):
             """Possibly callback each deferred in a list with single result"""
